@@ -150,10 +150,10 @@ bounded_only('C13', 'bounded.c13',
     'case = one PDA or one grammar; non-trivial PDA = accepts some word of length <=2 in some mode and has a transition pushing >=2 symbols; non-trivial grammar as in C08',
     {'quick': '2500 random PDAs + 904 exhaustive + 600 random grammars; words <=3', 'thorough': '25000 PDAs + 12384 + 6000 grammars, 8 hash seeds'})
 bounded_only('C11', 'bounded.c11',
-    'Bounded stand-in only: cfg.intersection / & and pda.intersection with a regular language given as Regex, DFA, NFA or eps-NFA object (incl. deterministic automata presented as NFA/eps-NFA objects, partly overlapping alphabets, empty operands) against the product of the reference semantics; other operand types must raise NotImplementedError.',
+    'Bounded stand-in only: cfg.intersection / & and pda.intersection with a regular language given as Regex, DFA, NFA or eps-NFA object (incl. deterministic automata presented as NFA/eps-NFA objects, partly overlapping alphabets, empty operands, terminals that are capitalised strings or ints, finite-control PDAs with 4 states over 3 letters whose product pairs are reached late, two automata over the same State objects) against the product of the reference semantics; other operand types must raise NotImplementedError; a run-time check of the contract of CFGVariableConverter with up to 14 states / 12 symbols (every triple its own variable, the same triple the same variable, equal copies and objects indexed by an earlier converter).',
     PDA_NOTE, ['CFG.intersection', 'CFG._intersection_*', 'PDA.intersection', '_PDAStateConverter', 'CFGVariableConverter'],
     'case = (grammar | PDA) x regular operand with the class it is presented as; non-trivial = both operands have a non-empty language',
-    {'quick': '1500 grammar pairs + 1500 PDA pairs + operand-type cases; words <=3', 'thorough': '15000 + 15000 pairs, 8 hash seeds'})
+    {'quick': '1800 grammar pairs + 2000 PDA pairs + 500 shared-state cases + 6 converter cases + operand-type cases; words <=3', 'thorough': 'ten times as many, 8 hash seeds'})
 
 bounded_only('C05', 'bounded.c05',
     'Bounded stand-in only: every token string of <=4 tokens over {a, b, space, ., |, *, (, ), $} (7381 texts) and 2500 rendered random expressions (depth <=3, all operator spellings, minimal and redundant parentheses, escaped operator symbols, damaged variants) are read by an independent precedence-climbing parser; Regex must accept exactly the well-formed ones (else MisformedRegexError only) and accepts / to_epsilon_nfa / to_cfg / str round trip / combinators must agree with the reference matcher on all words of length <=3.',
@@ -252,8 +252,8 @@ mixed2('C12', [('contracts.cfg', 'CFG.is_empty'), ('contracts.cfg', 'CFG.get_rea
       'Deductive for get_reachable_symbols (exactly the symbols occurring in a sentential form derivable from the start symbol, by closure induction), for get_generating_symbols and get_nullable_symbols (the counter worklist _get_generating_or_nullable returns exactly the least set containing the terminals - resp. nothing - and the head of every production whose body lies in it; the memoising wrappers return it and keep their memo consistent), and for is_empty (start symbol not generating).',
       'contract-based deductive verification (pyvc + z3, Mathlib for the counting facts) for reachability, generating / nullable symbols and emptiness; bounded run-time contract checking for finiteness (networkx) and word enumeration', CFG_TRUST[:2] + ['get_generating_symbols is proved in contracts/cfg_gen.py (worklist with counters, against the least-set spec GNS); assumed there: the contract of the table builder CFG._set_impacts_and_remaining_lists (one counter cell per non-empty production initialised with the body length, one _impacts entry per body position), the four List.countP / List.count facts proved in bridge/count.lean, the induction principle of the least set (one instance), and that the memo fields hold None or the computed set'])
 
-CONV_JOBS = [('contracts.cfg_conv', 'CFGVariableConverter.' + k) for k in ('_set_index_state', '_get_state_index', '_set_index_symbol', '_get_symbol_index', '_get_indexes', '_create_new_variable', 'to_cfg_combined_variable', 'set_valid', 'is_valid_and_get')]
-CONV_TEXT = "Deductive for the triple-variable converter (pda.cfg_variable_converter, every method but the constructor): the index used for a state / symbol object is the entry of this converter's own dictionary for its value, whatever index an earlier converter cached on the object (it was not on the pinned tree: fix recorded as X-C19-converter-stale-index); a cell of the table that holds a variable is never changed, so the same triple always gets the same variable; every variable in the table is Variable(n) for an n below the counter and no n occurs twice, so different triples of registered states and symbols get different variables; set_valid only sets the flag of its cell. "
+CONV_JOBS = [('contracts.cfg_conv', 'CFGVariableConverter.' + k) for k in ('_set_index_state', '_get_state_index', '_set_index_symbol', '_get_symbol_index', '_get_indexes', '_create_new_variable', 'to_cfg_combined_variable', 'set_valid', 'is_valid_and_get')] + [('contracts.cfg_conv_init', 'CFGVariableConverter.__init__')]
+CONV_TEXT = "Deductive for the triple-variable converter (pda.cfg_variable_converter, every method, the constructor included - it establishes the representation invariant the other methods keep): the index used for a state / symbol object is the entry of this converter's own dictionary for its value, whatever index an earlier converter cached on the object (it was not on the pinned tree: fix recorded as X-C19-converter-stale-index); a cell of the table that holds a variable is never changed, so the same triple always gets the same variable; every variable in the table is Variable(n) for an n below the counter and no n occurs twice, so different triples of registered states and symbols get different variables; set_valid only sets the flag of its cell. "
 mixed2('C13', [('contracts.pda', k) for k in ('fn.get_next_free[State]', 'fn.get_next_free[StackSymbol]', 'PDA.to_final_state', 'PDA.to_empty_stack')]
        + [('contracts.cfg2pda', 'PDA.add_transition'), ('contracts.cfg2pda', 'CFG.to_pda'), ('contracts.cfg_creator', 'CfgCreatorC.get_stack_symbol_from')] + CONV_JOBS, [],
        'Deductive for PDA.to_final_state and PDA.to_empty_stack: the result has exactly the operand transitions plus the bottom-marker wrapper transitions, a start state, an end state and a bottom symbol that are proved fresh (not states / stack symbols of the operand, pairwise different) through the proved contract of get_next_free, for every PDA incl. ones that already use the reserved names; the operand is unchanged. '
@@ -290,7 +290,7 @@ mixed2('C19', [('contracts.cfg_cache', 'CFGCounters._get_generating_or_nullable'
        'contract-based deductive verification (pyvc + z3): restoration of the memoised counters of the CFG analyses, frame obligations of the proved conversions; bounded run-time contract checking (histories of calls compared with fresh equal objects) for everything else',
        ['the frame obligations speak about the abstract views only: caches outside the view (Regex._enfa, CFG._normal_form, IndexedGrammar.marked) are covered by the bounded histories only',
         'in contracts/cfg_cache.py the contract of CFG._set_impacts_and_remaining_lists is assumed (it is proved in the other view, contracts/cfg_gen.py); _remaining_lists is viewed as symbol -> (index -> count) there and as symbol -> (length, array) in cfg_gen',
-        'other caches (CFG._normal_form, Regex._enfa) are not under contract; the converter is proved method by method, its constructor (enumerate with an attribute as loop target, nested comprehension) is assumed to establish the representation invariant'])
+        'other caches (CFG._normal_form, Regex._enfa) are not under contract; the converter is proved method by method, its constructor included (the sets it is given are read as sequences in enumeration order; the writes to the index attribute of the objects are dropped in that view)'])
 
 mixed2('C08', [('contracts.cfg_gen', k) for k in ('CFGGen.generate_epsilon', 'CFGGen._set_impacts_and_remaining_lists')], ['bridge/count.lean'],
        'Deductive for generate_epsilon, the branch of contains() / __contains__ for the empty word: it returns True exactly when the start symbol is in the least set of nullable symbols (the set closed under "head of a production whose body lies in the set", starting from nothing), for every grammar and iteration order, works on a copy of the memoised counters and leaves the tables as built; the table builder is proved with it.',
@@ -327,7 +327,7 @@ mixed2('C11', [('contracts.cfg_inter', k) for k in ('fn._get_all_bodies', 'fn._i
        'contract-based deductive verification (pyvc + z3) of the Bar-Hillel construction in CFG.intersection with its four helpers and the triple-variable converter, and of the reachable product construction in PDA.intersection; bounded run-time contract checking for the two language statements',
        ['language statements from the proved structures: Bar-Hillel theorem and the product of a PDA with a DFA (Hopcroft-Motwani-Ullman Thm 7.27), assumed, backed by the bounded comparison',
         'PDA.intersection: _PDAStateConverter.to_pda_combined_state is modelled as the pairing State((p, s)) (injective because tuples compare by value; the numpy cache only saves allocations - by inspection); pda.TransitionFunction.__call__ returns the set of (target, push) stored for the key; is_deterministic / to_deterministic / to_epsilon_nfa of the operand are assumed (C01); the view of the result is (transitions, start state, start stack symbol, final states) - its registered states and alphabets are not part of the postcondition',
-        'assumed contracts in contracts/cfg_inter*.py: CFGVariableConverter.to_cfg_combined_variable is a function of (state, symbol, state) returning a Variable - in contracts/cfg_inter*.py it is a fixed function of the triple, while contracts/cfg_conv.py proves for the real, lazily numbering converter that an assigned variable never changes and that different registered triples get different variables - the step from the second to the first (the eventual assignment as the fixed function) is by inspection, and the constructor is assumed to establish the invariant; '
+        'assumed contracts in contracts/cfg_inter*.py: CFGVariableConverter.to_cfg_combined_variable is a function of (state, symbol, state) returning a Variable - in contracts/cfg_inter*.py it is a fixed function of the triple, while contracts/cfg_conv.py proves for the real, lazily numbering converter that an assigned variable never changes and that different registered triples get different variables - the step from the second to the first (the eventual assignment as the fixed function) is by inspection; '
         'DeterministicFiniteAutomaton.__call__ returns [] or [the successor]; accepts([]) of a deterministic automaton == its start state is final; contains([]) is a function of the grammar; to_deterministic returns a deterministic automaton with one start state whose start and final states are states; '
         'language parts of to_normal_form and to_deterministic: C09, C01',
         'Terminal.value of a terminal is read as the automaton symbol with the same value (symbol_of); Production(..., filtering=False) stores the body as given'])
